@@ -362,6 +362,8 @@ def main(argv):
         drv = next((j.get("driver") for j in spec["jobs"] if j["name"] == primary.job), None)
         if primary.job and primary.job.startswith("corpus-"):
             drv = "cache"
+        if primary.job == "acache":
+            drv = None  # AsyncCache traces are re-generated from their seed, not shrunk through replay-cache
         path = write_replay(pid, seed, primary, [f.message for f in violations if f is not primary], driver=drv)
         tail = "" if mons else " no-failing-input-found"
         for f in (mons[:5] if mons else violations[:5]):
